@@ -7,6 +7,7 @@ mode:生成的加密算法
 void multiruncrypt_file(u8_t id, Aesmode &mode)
 {
   buffergroup *iobuffer = buffergroup::get_instance();
+  iobuffer->wait_buffer(id); // the buffer belongs to the I/O thread until it is READY (or INV)
   for (u8_t *block = iobuffer->require_buffer_entry(id); block != NULL; block = iobuffer->require_buffer_entry(id))
     mode.runcry(block);
 };
